@@ -16,7 +16,8 @@ unchanged.  Strict means:
 * nothing after `exit`.
 
 `check-sat` / `get-value` decide by enumeration: Bool, bit-vectors of width <= 4, Int restricted to [-R, R], every
-declared-sort instance has exactly K elements (`@<sort>!k` as values).  A live assertion that mentions a symbol whose
+declared-sort instance has exactly K elements (`@<sort>!k` as values), `(Array I E)` over these with select / store
+(all functions from the index domain to the element domain, at most 4096 of them).  A live assertion that mentions a symbol whose
 name starts with `UNKNOWN` makes `check-sat` answer `unknown`.
 
 No pysmt import: own reader and own evaluator.  With --log every command and its reply are appended to FILE
@@ -113,7 +114,7 @@ class Strict(object):
         return None
 
     def parse_sort(self, s):
-        """S-expression -> canonical sort: 'Bool' | 'Int' | ('BV', w) | ('U', text)"""
+        """S-expression -> canonical sort: 'Bool' | 'Int' | ('BV', w) | ('U', text) | ('Array', index, element)"""
         if s == "Bool" or s == "Int":
             return s
         if isinstance(s, list) and len(s) == 3 and s[0] == "_" and s[1] == "BitVec" and s[2].isdigit():
@@ -121,6 +122,12 @@ class Strict(object):
             if not 1 <= w <= 4:
                 raise Err("unsupported bit-vector width %d" % w)
             return ("BV", w)
+        if isinstance(s, list) and len(s) == 3 and s[0] == "Array":
+            idx, elem = self.parse_sort(s[1]), self.parse_sort(s[2])
+            sort = ("Array", idx, elem)
+            if len(self.domain(elem)) ** len(self.domain(idx)) > 4096:
+                raise Err("array sort too large for enumeration")
+            return sort
         if isinstance(s, str):
             a = self.sort_arity(unquote(s))
             if a is None:
@@ -141,6 +148,8 @@ class Strict(object):
     @staticmethod
     def sort_text(s):
         if isinstance(s, tuple):
+            if s[0] == "Array":
+                return "(Array %s %s)" % (Strict.sort_text(s[1]), Strict.sort_text(s[2]))
             return "(_ BitVec %d)" % s[1] if s[0] == "BV" else s[1]
         return s
 
@@ -154,6 +163,13 @@ class Strict(object):
             return d
         if sort[0] == "BV":
             return list(range(1 << sort[1]))
+        if sort[0] == "Array":
+            # an array value is the tuple of its elements, in the order of the index domain
+            elems = self.domain(sort[2])
+            res = [()]
+            for _ in self.domain(sort[1]):
+                res = [r + (e,) for r in res for e in elems]
+            return res
         return list(range(self.K))
 
     def value_text(self, sort, v):
@@ -163,6 +179,12 @@ class Strict(object):
             return str(v) if v >= 0 else "(- %d)" % -v
         if sort[0] == "BV":
             return "#b" + format(v, "0%db" % sort[1])
+        if sort[0] == "Array":
+            txt = "((as const %s) %s)" % (self.sort_text(sort), self.value_text(sort[2], v[0]))
+            for i, e in zip(self.domain(sort[1])[1:], v[1:]):
+                if e != v[0]:
+                    txt = "(store %s %s %s)" % (txt, self.value_text(sort[1], i), self.value_text(sort[2], e))
+            return txt
         return "@%s!%d" % (re.sub(r"[^A-Za-z0-9]+", "_", sort[1]).strip("_"), v)
 
     # ------------------------------------------------------- sort checking
@@ -263,6 +285,13 @@ class Strict(object):
         if h == "concat":
             need(n == 2 and isbv(args[0]) and isbv(args[1]))
             return self._bv(args[0][1] + args[1][1])
+        isarr = lambda s: isinstance(s, tuple) and s[0] == "Array"
+        if h == "select":
+            need(n == 2 and isarr(args[0]) and args[0][1] == args[1])
+            return args[0][2]
+        if h == "store":
+            need(n == 3 and isarr(args[0]) and args[0][1] == args[1] and args[0][2] == args[2])
+            return args[0]
         if self.sym_sort(unquote(h)) is not None:
             raise Err("%s is not a function" % h)
         raise Err("unknown symbol %s" % h)
@@ -354,6 +383,11 @@ class Strict(object):
             f = {"<": lambda x, y: x < y, "<=": lambda x, y: x <= y,
                  ">": lambda x, y: x > y, ">=": lambda x, y: x >= y}[h]
             return ("Bool", all(f(v[i], v[i + 1]) for i in range(len(v) - 1)))
+        if h == "select":
+            return (s0[2], v[0][self.domain(s0[1]).index(v[1])])
+        if h == "store":
+            k = self.domain(s0[1]).index(v[1])
+            return (s0, v[0][:k] + (v[2],) + v[0][k + 1:])
         w = s0[1]
         m = (1 << w) - 1
         sg = lambda x: x - (1 << w) if x >> (w - 1) else x
